@@ -45,6 +45,8 @@ def main():
                 n = sum(1 for l in o.splitlines() if l.startswith("VIOLATION"))
                 print(c, chk, "exit", rc, "violations", n, "|", f["what"][:90], flush=True)
                 out["%s:%s" % (c, chk)] = {"exit": rc, "violations": n}
+                if rc not in (0, 1):
+                    out["%s:%s" % (c, chk)]["tail"] = o[-1500:]
         finally:
             sh("git -C /repo worktree remove --force %s" % wt)
             sh("rm -rf /verif/.work/mut_unfix_%s" % c)
